@@ -316,8 +316,8 @@ func genClose(r rng, seed uint64, id string) *sdl.Program {
 	return p
 }
 
-var cfgLeafInts = []string{"sim.a", "sim.b", "sim.c", "sim.sub.a", "other.n", "alt.sub.a"}
-var cfgLeafStrs = []string{"sim.name", "sim.sub.b", "other.tag", "alt.sub.b"}
+var cfgLeafInts = []string{"sim.a", "sim.b", "sim.c", "sim.sub.a", "other.n", "alt.sub.a", "sim.nest.inner.a", "alt.nest.inner.a"}
+var cfgLeafStrs = []string{"sim.name", "sim.sub.b", "other.tag", "alt.sub.b", "sim.nest.b", "alt.nest.b"}
 var cfgStrVals = []string{"va", "vb", "vc"}
 var cfgSelVals = []string{"a", "b", "c"}
 
@@ -433,6 +433,11 @@ func genConfig(r rng, seed uint64, id string, merge bool) *sdl.Program {
 		if len(s.Doc) == 0 {
 			setPath(s.Doc, "sim.a", r.n(1, 9))
 		}
+		if merge && s.Kind == "args" && r.p(0.5) {
+			// a command-line source that blanks a string key (`--app.config=key=`): the key is
+			// supplied, with the empty string
+			setPath(s.Doc, pick(r, cfgLeafStrs), "")
+		}
 		if r.p(0.06) && !many {
 			switch s.Kind {
 			case "file":
@@ -544,6 +549,10 @@ func genConfig(r rng, seed uint64, id string, merge bool) *sdl.Program {
 			// as an untagged nil pointer
 			t.Config = append(t.Config, &sdl.Conf{Field: "CT", Menu: "typePrefix", Keys: []string{"sim.sub"}, GoType: "cfgpv"})
 		}
+		if !merge && r.p(0.25) {
+			// a struct whose constraints sit behind a pointer, in several components and sections
+			t.Config = append(t.Config, &sdl.Conf{Field: "CN", Menu: "prefixNest", Keys: []string{pick(r, []string{"sim.nest", "alt.nest"})}, GoType: "nest", Validate: "struct", Optional: r.p(0.6)})
+		}
 		if r.p(0.2) {
 			// a prefix-bound struct declared as a tagged anonymous field
 			t.Config = append(t.Config, &sdl.Conf{Field: "CfgAB", Menu: "prefixStruct", Keys: []string{"sim.sub"}, GoType: "struct",
@@ -551,6 +560,39 @@ func genConfig(r rng, seed uint64, id string, merge bool) *sdl.Program {
 		}
 		p.Types = append(p.Types, t)
 		p.Instances = append(p.Instances, &sdl.Instance{ID: fmt.Sprintf("c%d", ti), Type: t.Name, PresetCfg: r.p(0.25)})
+	}
+	// several components bind one struct type whose constraints sit behind a pointer: in one
+	// section the pointer stays nil (nothing is supplied below it), in the other it is set
+	if !merge && r.p(0.12) && len(p.Types) >= 2 {
+		for _, s := range p.Sources {
+			if sim, ok := s.Doc["sim"].(map[string]any); ok {
+				if nest, ok := sim["nest"].(map[string]any); ok {
+					delete(nest, "inner")
+				}
+			}
+		}
+		last := p.Sources[len(p.Sources)-1]
+		setPath(last.Doc, "sim.nest.b", pick(r, cfgStrVals))
+		setPath(last.Doc, "alt.nest.inner.a", r.n(0, 6))
+		secs := []string{"sim.nest", "alt.nest"}
+		if r.p(0.3) {
+			secs[0], secs[1] = secs[1], secs[0]
+		}
+		for ti, t := range p.Types {
+			var keep []*sdl.Conf
+			for _, cf := range t.Config {
+				if cf.Menu != "prefixNest" && cf.Menu != "typePrefix" && cf.Menu != "typePrefixDyn" {
+					// (nothing else in these programs can make the start fail)
+					cf.Optional, cf.Validate = true, ""
+					keep = append(keep, cf)
+				}
+			}
+			sec := secs[1]
+			if ti == 0 {
+				sec = secs[0]
+			}
+			t.Config = append(keep, &sdl.Conf{Field: "CN", Menu: "prefixNest", Keys: []string{sec}, GoType: "nest", Validate: "struct", Optional: r.p(0.5)})
+		}
 	}
 	// the configuration changes while the container runs: an initialization callback sets a
 	// key that an expression of a component created later (lazy: by a lookup after Run) reads
